@@ -831,6 +831,12 @@ func genNum(r *hx.Rand) (string, string) {
 		f := randDouble(r)
 		if r.Chance(1, 4) { // moderate magnitude: shorter text
 			f = math.Float64frombits(uint64(1023-10+r.Intn(80))<<52 | r.U64()>>12)
+		} else if r.Chance(1, 6) {
+			// the float just below a power of two: the tie above it rounds UP to 2^k (even), i.e. the
+			// mantissa overflows to 2^53 and floatBits takes its "rounding added a bit" branch with
+			// the second overflow test (k = 1024: the tie is the overflow threshold itself)
+			k := hx.Pick(r, []int{1023, 1023, 1024, 1022, 1, 0, -1, -1021, -1022, -1073, r.Intn(2098) - 1073})
+			f = math.Nextafter(math.Ldexp(1, k), 0)
 		}
 		s := perturb(r, halfway(f))
 		if r.Chance(1, 3) {
